@@ -111,7 +111,7 @@ def model_map_to_seq(X, val):
             b = ('m', P + 'map', ((('s', P + 'str', val), b),))
         if mget(b, KEY):
             return OUTSIDE, None
-        items.append(('m', b[1], b[2] + ((('s', P + 'str', KEY), ('s', P + 'str', a[2])),)))
+        items.append(('m', b[1], b[2] + ((('s', P + 'str', KEY), a),)))
     return DOMAIN, ('q', P + 'seq', tuple(items))
 
 
@@ -223,6 +223,7 @@ def run_case(tr, X, val, strict, res):
         res.violation('C15:%s:wrong-shape' % tr, desc + ' gave %s, documented shape is %s' % (show(after), show(expected)), payload)
         return
     res.sample({'transform': tr, 'value_attribute': val, 'before': show(before), 'after': show(after)}, 2)
+    shared_cases(tr, X, Xn, val, strict, res, after, payload, desc)
     # inverse laws
     if tr in ('seq_to_map', 'index_to_map'):
         if val is not None and any(mget(it, val) and is_map(mget(it, val)[0]) for it in (Xn[2] if tr == 'seq_to_map' else [b for a, b in Xn[2]])):
@@ -248,6 +249,60 @@ def run_case(tr, X, val, strict, res):
                 ok = all(a == c and b[0] == 'm' and strip_key(b) == strip_key(d) for (a, b), (c, d) in zip(got[2], Xn[2]))
         if not ok or [p for p in back[2] if p[0][2] != 'attr'] != [p for p in before[2] if p[0][2] != 'attr']:
             res.violation('C15:%s:inverse-law' % tr, desc + ': %s then %s gives %s' % (tr, inv, show(got)), payload)
+
+
+def shared_cases(tr, X, Xn, val, strict, res, after, payload, desc):
+    """the same in-domain input where node OBJECTS are shared (what an alias composes to, and what a dumper builds for
+    an object referenced twice): the collection and its first item are also the values of two other attributes, and
+    (mappings) the first item is also the value of the second key; the other references must not change and the
+    attribute must come out as without sharing"""
+    root = to_node(wrap(X))
+    attr_node = [v for k, v in root.value if k.value == 'attr'][0]
+    items = [v for v in (attr_node.value if Xn[0] == 'q' else [b for a, b in attr_node.value])]
+    root.value.append((yaml.ScalarNode(P + 'str', 'coll'), attr_node))
+    if items:
+        root.value.append((yaml.ScalarNode(P + 'str', 'item'), items[0]))
+    pre = view(root)
+    res.traces += 1
+    res.transitions += 1
+    try:
+        apply(tr, yatiml.Node(root), val, strict)
+    except Exception as e:     # noqa
+        res.violation('C15:%s:shared-raises' % tr, desc + ' with shared nodes raised %s: %s' % (type(e).__name__, e), payload)
+        return
+    post = view(root)
+    for name in ('coll', 'item', 'other'):
+        if mget(post, name) != mget(pre, name):
+            res.violation('C15:%s:changes-shared-%s' % (tr, name),
+                          desc + ': the %s is also referenced by attribute %r, which changed from %s to %s' % (
+                              'collection' if name == 'coll' else 'first item', name, show(mget(pre, name)[0]), show(mget(post, name)[0])), payload)
+            return
+    if mget(post, 'attr') != mget(after, 'attr'):
+        res.violation('C15:%s:shared-differs' % tr, desc + ' gives %s when its nodes are referenced elsewhere too, %s otherwise' % (
+            show(mget(post, 'attr')[0]), show(mget(after, 'attr')[0])), payload)
+        return
+    res.hist['shared:' + tr] += 1
+    if Xn[0] == 'm' and len(Xn[2]) >= 2:
+        # one item object under the first two keys
+        X2 = ('m', Xn[1], (Xn[2][0], (Xn[2][1][0], Xn[2][0][1])) + Xn[2][2:])
+        cls2, want2 = MODELS[tr](X2, val)
+        if cls2 != DOMAIN:
+            return
+        root = to_node(wrap_full(X2))
+        attr_node = [v for k, v in root.value if k.value == 'attr'][0]
+        attr_node.value[1] = (attr_node.value[1][0], attr_node.value[0][1])
+        res.traces += 1
+        res.transitions += 1
+        try:
+            apply(tr, yatiml.Node(root), val, strict)
+        except Exception as e:     # noqa
+            res.violation('C15:%s:shared-raises' % tr, desc + ' with one item under two keys raised %s: %s' % (type(e).__name__, e), payload)
+            return
+        if view(root) != wrap_full(want2):
+            res.violation('C15:%s:one-item-two-keys' % tr, desc + ' with the first item object also under the second key gives %s, documented shape %s' % (
+                show(mget(view(root), 'attr')[0]), show(want2)), payload)
+            return
+        res.hist['shared-two-keys:' + tr] += 1
 
 
 def wrap_full(Xn):
